@@ -6,7 +6,9 @@ import numpy as np
 from fractions import Fraction
 from common import *
 
-RULE = ("configs drawn from one PRNG: Linear (1-7 dims, 1-3 units, monotonicities in {-1,0,1}, acyclic "
+RULE = ("hostile Linear dominance sets (circular: k-cycles in any rotation, (d, d), cycles behind roots / with tails, "
+        "repeated pairs; range dominances on monotonicity None; acyclic chains as accepted control) which must be "
+        "rejected at construction or else project without raising; configs drawn from one PRNG: Linear (1-7 dims, 1-3 units, monotonicities in {-1,0,1}, acyclic "
         "monotonic/range dominance graphs, input ranges — positive on the range-dominance dimensions, and on the "
         "dimensions OUTSIDE every range dominance positive / zero (input_min == input_max) / one-sided / absent in "
         "any mixture —, norm order in {None,1,2,inf}) and Categorical "
@@ -329,8 +331,92 @@ def check_categorical(ctx, item, replies):
     ctx.fail("fixpoint", key, case, out)
 
 
+# ---------------------------------------------------------------- dominance sets the validation must reject
+def gen_hostile_linear(rng):
+  """LinearConstraints arguments whose dominance set is circular (k-cycle in any rotation, a pair (d, d), a cycle
+  behind a root / in front of a tail, with repeated pairs) or whose range-dominance dimensions carry the
+  monotonicity None — or, as the accepted control, a chain through the same dimensions."""
+  n = rng.randint(2, 6)
+  kind = rng.choice(["cycle", "cycle", "self", "none_mono", "chain"])
+  which = rng.choice(["monotonic_dominances", "range_dominances"])
+  sign = 1 if which == "monotonic_dominances" else rng.choice([1, -1])
+  monos = [sign] * n
+  k = rng.randint(2, n) if kind != "self" else 1
+  verts = rng.sample(range(n), k)
+  if kind in ("cycle", "self"):
+    pairs = [(verts[i], verts[(i + 1) % k]) for i in range(k)]
+    if k == 2 and kind == "cycle" and n >= 3:        # a bare 2-cycle was always rejected: make it a 3-cycle
+      extra = [v for v in range(n) if v not in verts][0]
+      pairs = [(verts[0], verts[1]), (verts[1], extra), (extra, verts[0])]
+    for v in range(n):
+      if v not in {i for p in pairs for i in p} and rng.random() < 0.5:
+        pairs.append((v, rng.choice(verts)) if rng.random() < 0.5 else (rng.choice(verts), v))
+    if rng.random() < 0.3:
+      pairs.append(rng.choice(pairs))
+    rng.shuffle(pairs)
+  else:
+    pairs = [(verts[i], verts[i + 1]) for i in range(k - 1)] or [(0, 1)]
+  if kind == "none_mono":
+    which = "range_dominances"
+    monos = [None] * n if rng.random() < 0.5 else [None if i in {j for p in pairs for j in p} else rng.choice([0, 1]) for i in range(n)]
+  cfg = dict(monotonicities=monos, monotonic_dominances=None, range_dominances=None, input_min=None, input_max=None,
+             normalization_order=rng.choice([None, 1]))
+  cfg[which] = pairs
+  if which == "range_dominances":
+    cfg["input_min"] = [Fraction(rng.randint(-4, 4), 2) for _ in range(n)]
+    cfg["input_max"] = [a + Fraction(rng.randint(1, 8), 4) for a in cfg["input_min"]]
+  w = [[gen_value(rng, "dyadic")] for _ in range(n)]
+  return dict(layer="linear_hostile", hostile=kind, cfg=cfg, w=w)
+
+
+def check_hostile_linear(ctx, case):
+  """property: such a configuration is rejected with ValueError at construction, or (the chain control, and
+  whatever else is accepted) the projection does not raise and returns finite weights meeting the dominances."""
+  import tensorflow as tf
+  from tensorflow_lattice.python import linear_layer
+  cfg = case["cfg"]
+  kw = dict(cfg)
+  for k in ("input_min", "input_max"):
+    kw[k] = None if cfg[k] is None else [float(Fraction(v)) for v in cfg[k]]
+  for k in ("monotonic_dominances", "range_dominances"):
+    kw[k] = None if cfg[k] is None else [tuple(p) for p in cfg[k]]
+  key = dict(layer="linear", cls="hostile:" + case["hostile"], kind="dyadic")
+  ctx.case(sig=("hostile", case["hostile"], len(cfg["monotonicities"]), bool(cfg["range_dominances"])), nontrivial=True, sample=case)
+  try:
+    cons = linear_layer.LinearConstraints(**kw)
+  except ValueError as e:
+    if isinstance(e, tf.errors.OpError):
+      ctx.fail("raises", key, case, classify_exc(e), "constructor")
+    ctx.count("hostile:%s:rejected" % case["hostile"])
+    if case["hostile"] == "chain":
+      ctx.fail("raises", key, case, "ERR ValueError", "an acyclic dominance chain was rejected")
+    return
+  except Exception as e:  # pylint: disable=broad-except
+    ctx.fail("raises", key, case, classify_exc(e), "constructor raised something else than ValueError")
+    return
+  ctx.count("hostile:%s:accepted" % case["hostile"])
+  wf = np.array([[float(Fraction(v)) for v in row] for row in case["w"]], dtype=np.float64)
+  try:
+    out = cons(tf.constant(wf)).numpy()
+  except Exception as e:  # pylint: disable=broad-except
+    ctx.fail("raises", key, case, classify_exc(e), "accepted at construction, the projection raises: %s" % str(e)[:120])
+    return
+  if not np.all(np.isfinite(out)):
+    ctx.fail("finite", key, case, out)
+    return
+  tol = 1e-7 * max(1.0, float(np.max(np.abs(wf))))
+  if cfg["normalization_order"] is None:
+    for d, k in kw["monotonic_dominances"] or []:
+      if np.min(out[d] - out[k]) < -tol:
+        ctx.fail("monotonic_dominance", key, case, out, "dominant %d weak %d" % (d, k))
+  if case["hostile"] == "none_mono":
+    ctx.fail("raises", key, case, "accepted", "a range dominance between features without monotonicity was accepted")
+
+
 def run(ctx):
   ctx.pending = []
+  for _ in range(ctx.n(60, 1500)):
+    check_hostile_linear(ctx, gen_hostile_linear(ctx.rng))
   nl = ctx.n(250, 6000)
   lines = run_linear(ctx, nl)
   n_lin = len(ctx.pending)
@@ -349,6 +435,9 @@ def replay(ctx, failure):
   """Re-executes one recorded failing case on the current tree."""
   import tensorflow as tf
   case = failure["case"]
+  if case.get("layer") == "linear_hostile":
+    check_hostile_linear(ctx, case)
+    return
   ctx.pending = []
   cfg = case["cfg"]
   w = [[Fraction(v) for v in row] for row in case["w"]]
